@@ -105,7 +105,7 @@ def _run(cfg):
         else:
             r = grid_reward(cfg["pattern"], rnd, RU, pt, box)
             ru = int(round(r * RU))
-        rec.recv(t0 + i, r, rcode=ru)
+        rec.recv(t0 + i, R.cast_reward(r, cfg.get("rtype")), rcode=ru)
         if rec.failed:
             break
         if i in queries:
